@@ -109,6 +109,16 @@ def free_cases(prop, restart):
                 ops += [X('%s %s' % (k, d), 'err', mod=True), X('%s %s .' % (k, d), 'err', mod=True), X('%s %s ..' % (k, d), 'err', mod=True),
                         X('%s %s e/x' % (k, d), 'err', mod=True), X('%s %s ../a' % (k, d), 'err', mod=True)]
         add('xn%d' % upper, ops, upper)
+        # E7 request fields of MKDIR / MKNOD (umask), SETXATTR (flags), GETXATTR / LISTXATTR (size 0 = ask for the length)
+        def fn_mkdir(path, mode): return lambda v: put(v, path, ('d', mode, {}, {}))
+        ops = [X('mkdiru e 1ff 12', 'fn', mod=True, fn=fn_mkdir('e', 0o755), must=upper), X('mkdiru d/e 1ff 3f', 'fn', mod=True, fn=fn_mkdir('d/e', 0o700), must=upper),
+               X('mknodx f 81ff 0 3f', 'fn', mod=True, fn=fn_create('f', 0o700), must=upper), X('mknodx e/f 81b6 0 12', 'fn', mod=True, fn=fn_create('e/f', 0o644), must=upper),
+               X('setxattrf a user.k 76 2', 'err', mod=True), X('setxattrf a user.k 76 1', 'any', mod=True, must=upper), X('setxattrf a user.k 77 1', 'err', mod=True),
+               X('setxattrf a user.k 78 2', 'any', mod=True, must=upper), X('getxattr0 a user.k'), X('listxattr0 a'), X('getxattr a user.k'), X('listxattr0 d')]
+        add('xf%d' % upper, ops, upper)
+    if prop == 'C11':
+        # a client with CAP_MKNOD creates a 0:0 character device: on disk that IS a whiteout (known finding client-creates-whiteout-device)
+        add('xw1', [X('mknodx e 2000 0 0', 'any', mod=True)], True)
     # E5 environment sizes: a lower file larger than the 4 MiB copy-up chunk is copied up whole
     add('xbig', [X('read e 4194300 16'), X('chmod e 1a0', 'fn', mod=True, fn=fn_setattr('e', 'm', 0o640, 0), must=True), X('read e 4194300 16'),
                  X('write e 4194309 5a', 'any', mod=True, must=True), X('read e 4194300 16')], True, big=True)
@@ -151,7 +161,9 @@ def analyse_free(prop, cases, obs):
             if v is None or ('!' in v and cfg != 'r'):
                 finding(k, 'inconsistent answers after %s: %s' % (o['raw'], (v or '')[:200]), 'inconsistent-answers'); break
             if prop == 'C11' and cfg != 'r' and b.get('restart') != v:
-                finding(k, 'after %s (errno %s) a freshly started overlay shows a different tree' % (o['raw'], b['ret']), 'restart-differs'); break
+                w = o['raw'].split()
+                cls = 'client-creates-whiteout-device' if (w[0] == 'mknodx' and int(w[2], 16) & 0o170000 == 0o020000 and w[3] == '0' and ok) else 'restart-differs'
+                finding(k, 'after %s (errno %s) a freshly started overlay shows a different tree: live %s, restarted %s' % (o['raw'], b['ret'], v[:120], (b.get('restart') or '')[:120]), cls); break
             if not c['upper']:
                 if v != ob['view0'] or (o['mod'] and ok):
                     finding(k, 'without an upper layer %s returned %s / the view changed' % (o['raw'], b['ret']), 'no-upper-modified'); break
@@ -171,13 +183,13 @@ def analyse_free(prop, cases, obs):
 # ---- configuration cells through the ordinary pipeline (model = implementation: every cell is the same state transformer)
 CELLS_QUICK = ['w', 'd', 'k', 'm', 'wdkx']
 CELLS_FULL = CELLS_QUICK + ['a', 'n', 'x', 'mw', 'md', 'mwdk', 'i']
-def cell_cases(prop, restart, full=False):
+def cell_cases(prop, restart, full=False, cells=None):
     corpus = oc.corpus_cases(prop, restart)
     flag = {c['id']: c for c in oc.open_flag_cases(restart)}
     pick_corpus = corpus if full else [corpus[3], corpus[4]]
     pick_flag = list(flag.values()) if full else [flag[i] for i in ('o1r_t', 'o1w_a', 'o0r_t')]
     out = []
-    for cell in (CELLS_FULL if full else CELLS_QUICK):
+    for cell in (cells or (CELLS_FULL if full else CELLS_QUICK)):
         for c in pick_corpus + pick_flag:
             c2 = copy.deepcopy(c); c2['id'] = 'g%s_%s' % (cell, c['id']); c2['cfg'] = cell
             out.append(c2)
